@@ -36,6 +36,8 @@ def main():
     bad = 0
     mods = sorted(glob.glob(os.path.join(tlcio.SPEC, "*.tla")) + glob.glob(os.path.join(tlcio.SPEC, "mc", "*.tla")))
     for m in mods:
+        if os.path.basename(m).startswith("Proofs_"):
+            continue                      # proof modules import TLAPS.tla, which only tlapm knows; C18 runs tlapm on them
         ok, out = tlcio.sany(m)
         print("sany %-28s %s" % (os.path.basename(m), "ok" if ok else "FAILED"))
         if not ok:
